@@ -65,15 +65,21 @@ class RegriddingOperator(LinearOperator):
         ndim = len(new_shape)
         self._bindex = [None] * ndim
         self._frac = [None] * ndim
+        self._bindex1 = [None] * ndim
         for d in range(ndim):
             tmp = np.arange(new_shape[d])*(newdist[d]/dom.distances[d])
-            self._bindex[d] = np.minimum(dom.shape[d]-2, tmp.astype(np.int64))
+            # lower neighbour; an axis of length one has only one pixel
+            self._bindex[d] = np.clip(tmp.astype(np.int64), 0, max(dom.shape[d]-2, 0))
             self._frac[d] = tmp-self._bindex[d]
+            # upper neighbour
+            self._bindex1[d] = np.minimum(self._bindex[d]+1, dom.shape[d]-1)
         self._bindex = [AnyArray(x) for x in self._bindex]
+        self._bindex1 = [AnyArray(x) for x in self._bindex1]
         self._frac = [AnyArray(x) for x in self._frac]
 
     def _device_preparation(self, x, mode):
         self._bindex = [elem.at(x.device_id) for elem in self._bindex]
+        self._bindex1 = [elem.at(x.device_id) for elem in self._bindex1]
         self._frac = [elem.at(x.device_id) for elem in self._frac]
 
     def apply(self, x, mode):
@@ -93,10 +99,10 @@ class RegriddingOperator(LinearOperator):
                 shp[d] = tgtshp[d]
                 xnew = np.zeros_like(v, shape=shp, dtype=v.dtype)
                 xnew = special_add_at(xnew, d, self._bindex[d-d0], v*(1.-wgt))
-                xnew = special_add_at(xnew, d, self._bindex[d-d0]+1, v*wgt)
+                xnew = special_add_at(xnew, d, self._bindex1[d-d0], v*wgt)
             else:  # TIMES
                 xnew = v[idx + (self._bindex[d-d0],)] * (1.-wgt)
-                xnew += v[idx + (self._bindex[d-d0]+1,)] * wgt
+                xnew += v[idx + (self._bindex1[d-d0],)] * wgt
 
             curshp[d] = xnew.shape[d]
             v = xnew
